@@ -27,7 +27,7 @@ PROPS = {
                       'once earlier admissions are a window old, whatever was polled), throttle_at_most_once, pending_le_limit_plus_one over all '
                       'interleavings. Tie to the code: step-by-step replay of observed histories of the real OutboundBreaker (state accessor under tag verif) '
                       'through the extracted model, plus the extracted spec checkers on the observations (8 concurrent callers included).',
-        'level_note': 'Trusted: Coq kernel, extraction (ExtrOcamlBasic), OCaml JSON glue, Go harness; monotonic clock, instants inside recorded brackets; '
+        'level_note': 'History-level theorems (proofs/Hist*.v): over ANY history a location stays within MaxFacts under every request except EnableRule(false), SetParents and Reload, which store facts without the capacity gate (counterexample lemmas; the property speaks of the add operations only); an add refused for capacity leaves the whole system unchanged. Trusted: Coq kernel, extraction (ExtrOcamlBasic), OCaml JSON glue, Go harness; monotonic clock, instants inside recorded brackets; '
                       'capacity: refused_add_no_effect and add_respects_capacity over the location model (property facts written by EnableRule/SetParents bypass the capacity gate by design of the code: D23, outside the public add operations).',
         'technique': 'Coq proof by invariant over call sequences (sliding-window potential) + differential replay of the real breaker',
         'assumptions': ['call instants are non-decreasing (clock read inside the mutex, monotonic clock)',
@@ -73,7 +73,7 @@ PROPS = {
                       'term-subset key lemma and matcher soundness/completeness), get_last_write, ids_kept_and_add_visible (both state kinds). Tie to the code: '
                       'observed Location histories (both state kinds) replayed op by op through the extracted model; every observed read additionally compared with the '
                       'linear (index-free) search of the model state.',
-        'level_note': 'Trusted: Coq kernel, extraction, OCaml glue, Go harness. search_exact is stated for instants at which nothing stored has expired (expiry: C07) and '
+        'level_note': 'History-level theorems (agent proof, proofs/Hist*.v): the fact map and the storage of every reachable state of BOTH state kinds equal the specification map computed from the observed history, get = look-up, indexed and linear agree on every get and (inside the fragment) every search. Trusted: Coq kernel, extraction, OCaml glue, Go harness. search_exact is stated for instants at which nothing stored has expired (expiry: C07) and '
                       'for patterns with a term and no property variable (D8/D9 are the complement, listed as known findings). Generated-id freshness is an assumption on crypto/rand.',
         'technique': 'Coq invariant proof over operation histories + refinement to linear search; differential replay of Location histories',
         'assumptions': ['UUIDs returned for omitted ids are fresh (taken from the trace; distinctness is checked by the harness only)',
@@ -93,7 +93,7 @@ PROPS = {
                       'expired facts), cascade_fuel_is_irrelevant, cascade_exact (linear state: exactly the least closure is removed from memory and storage, nothing else '
                       'changes), cascade_succeeds. Tie to the code: Location histories replayed through the extracted model; the closure spec is evaluated after every '
                       'successful RemFact/RemRule on both state kinds.',
-        'level_note': 'Exactness is proved for the linear state at instants where nothing is expired and ids do not look like variables (D14 is the complement); for the '
+        'level_note': 'History-level theorems (proofs/Hist*.v): in every reachable state of both kinds a successful removal leaves memory and storage = before minus the deleteWith-closure, nothing else changes, and the checker\'s executable closure is proved equal to the inductive one. Exactness is proved for the linear state at instants where nothing is expired and ids do not look like variables (D14 is the complement); for the '
                       'indexed state exactness rests on the correspondence plus C02 search exactness (composition not yet a single theorem).',
         'technique': 'Coq proof (measure on present facts for termination; least-fixed-point characterisation for exactness) + differential replay with closure oracle',
         'assumptions': ['facts are only removed during a removal (no concurrent adds: sequential histories)'],
@@ -110,7 +110,7 @@ PROPS = {
                       'Location methods, event processing and rule actions inlined), js_functions_use_callers_context, model_gates_match_source; and over the model — '
                       'refused_unchanged (a refusing gate leaves facts, indexes and storage exactly as they were), write_gate_spec/read_gate_spec (right keys are transparent). '
                       'Tie to the code: the regenerated table (translator) and op-by-op replay of ACL histories.',
-        'level_note': 'tools/gotables is syntactic and flow-insensitive (gate calls before accesses in source order, calls inlined by name); it is cross-checked by the behavioural '
+        'level_note': 'History-level theorems (proofs/Hist*.v): any history of mutating requests without the key leaves the location record unchanged; no read gets a value without the read key; a protected location driven with its keys simulates its unprotected twin (non-walking requests). GetParents was not read-gated (D56, found by these proofs, repaired in /repo); open finding D57: the holder of the read key can read the write key. tools/gotables is syntactic and flow-insensitive (gate calls before accesses in source order, calls inlined by name); it is cross-checked by the behavioural '
                       'ACL replay. Ungated exported helpers (SetProp, RemProp, GetProp, GetPropString, Have, RuleEnabled) are explicit exceptions in the theorem statements; '
                       'GetParents has no read check (parent names are not facts or rules).',
         'technique': 'Coq reflection over a source-derived table + Coq proof of gate refusal frame property + differential replay of the ACL matrix',
